@@ -175,8 +175,8 @@ func composeSession(b *broker.Broker) error {
 		return err
 	}
 	b.Publish("big", strings.Repeat("x", 200), 0, false) // dropped: exceeds the client's maximum packet size
-	// re-authentication: gmqtt compares the AUTH packet's data with the method; send both equal
-	_ = c3.Send(&mqttx.Packet{Type: mqttx.AUTH, Code: 0x19, Props: &mqttx.Props{AuthMethod: &m, AuthData: []byte(m), HasAuthData: true}})
+	// re-authentication with the method of CONNECT and data of its own
+	_ = c3.Send(&mqttx.Packet{Type: mqttx.AUTH, Code: 0x19, Props: &mqttx.Props{AuthMethod: &m, AuthData: []byte("reauth-data"), HasAuthData: true}})
 	_, _ = c3.WaitType(mqttx.AUTH, 0, 2*time.Second)
 	c3.Close()
 	time.Sleep(100 * time.Millisecond)
